@@ -134,7 +134,30 @@ CLAIMED["C13"] = dict(
        "per-receiver / per-frequency / full-array settings.",
   ref="DESIGN.md section 5 (C13)", engine="tlc-surveynoise")
 
+CLAIMED["C20"] = dict(
+  technique="TLA+ model of the Fourier helper's frequency bookkeeping on a "
+            "rank axis (Fourier.tla) checked by TLC + TLC trace validation of "
+            "random setter/interpolate/freq2time histories on real "
+            "emg3d.Fourier objects",
+  text="TLC checks Partition, ComputeInBand, MutualExclusion, "
+       "FilledCorrectly (pass-through only of the datum of that very "
+       "frequency, zero above fmax, works for every coarse option) and "
+       "TransformArgsCurrent for all setter histories over 4..6 required "
+       "frequencies, and finds both named deviations.  300 (thorough 5000) "
+       "random histories on real Fourier objects (DLF lagged/splined with "
+       "three filters, FFTLog; every_x, five kinds of input_freq; signal, "
+       "time and ft changes) are validated by TLC event by event: all "
+       "frequencies are expressed as exact ranks, interpolate() output is "
+       "classified per required frequency, extrapolation shape and spline "
+       "values are observed, freq2time is compared bit-wise with the "
+       "reference transform for the current settings.",
+  note="Trusted: TLC; SciPy spline/PCHIP and empymod.model.tem as "
+       "reference; standard DLF (pts_per_dec=0) not exercised.",
+  ref="DESIGN.md section 5 (C20)", engine="tlc-fourier")
+
 ENGINES = [
+ dict(name="tlc-fourier", path="spec/Fourier.tla", serves_properties=["C20"],
+      kind_free_text="TLA+ spec + TLC exhaustive + TLC trace validation"),
  dict(name="tlc-surveynoise", path="spec/SurveyNoise.tla",
       serves_properties=["C13"],
       kind_free_text="TLA+ spec + TLC exhaustive + behaviour replay"),
